@@ -26,12 +26,12 @@ res = {"id": sid, "property": prop, "repo_head": head}
 try:
     demo_src = open(os.path.join(src, "demo.py")).read()
     # demos were written against the agent's own worktree path; retarget to this worktree
-    demo_src = re.sub(r"/tmp/wt/C\d+", wt, demo_src)
+    demo_src = re.sub(r"/tmp/wt2?/C\d+", wt, demo_src)
     sd = os.path.join(wt, "_out", str(k))
     os.makedirs(sd, exist_ok=True)
     for fn in os.listdir(src):          # helper modules the demo imports (harness.py ...)
         if fn.endswith(".py") and fn != "demo.py":
-            open(os.path.join(sd, fn), "w").write(re.sub(r"/tmp/wt/C\d+", wt, open(os.path.join(src, fn)).read()))
+            open(os.path.join(sd, fn), "w").write(re.sub(r"/tmp/wt2?/C\d+", wt, open(os.path.join(src, fn)).read()))
     demo = os.path.join(sd, "demo.py")
     open(demo, "w").write(demo_src)
     env = dict(os.environ, PYTHONPATH=os.path.join(wt, "src"))
